@@ -56,6 +56,7 @@ KEY_TOUCH = "rh-touching-cells-assertion"
 BITKEYS = [(16, KEY_NONEQ, "noneq"), (32, KEY_NONHARD, "nonhard"), (64, KEY_UNNORM, "unnorm"),
            (128, KEY_OFFSET, "offset"), (256, KEY_VISBUF, "visbuf")]
 COMPILE_GUARD_S = 60
+POSE_PROBES = 48
 
 
 class _Timeout(Exception):
@@ -240,9 +241,9 @@ def relations_part(ck, tier):
             effective = hi != INF and hi < 30 and true_hi >= max(hi, 1) + 1 and (s["hull"][0] == -INF or s["hull"][0] / 2 <= max(hi, 1) + 2)
         else:
             effective = any(s["hull"][0] <= v <= s["hull"][1] and not (lo * 2 - 1e-6 <= v <= hi * 2 + 1e-6) for v in (-3, 3))
-        # quick: one program per (quantity, explanation, one/two-sided form); thorough: per form and operators
-        cls = (c["q"], explained, c["form"] == "cQc") if tier == "quick" else (c["q"], c["form"], tuple(c["ops"]), explained)
-        if effective and c.get("atom", "unary") == "unary" and seen_class.get(cls, 0) < 1:
+        # quick: one program per (quantity, explanation, form), at most 8; thorough: per form and operators
+        cls = (c["q"], explained, c["form"]) if tier == "quick" else (c["q"], c["form"], tuple(c["ops"]), explained)
+        if effective and c.get("atom", "unary") == "unary" and seen_class.get(cls, 0) < 1 and (tier != "quick" or len(pairing) < 8):
             seen_class[cls] = seen_class.get(cls, 0) + 1
             pairing.append((c, [lo, hi]))
     ck.cov["relations"] = stats
@@ -375,6 +376,44 @@ def real_program(item):
         objs[k] = info
     out["objs"] = objs
 
+    # pose replay (single object with a container): at a seeded sample of base probes, put a
+    # concrete object in every lattice pose (size alternative x yaw x pitch x roll) and ask the real
+    # container; "some pose fits" must be the spec's Feasible bit.  This binds the feasibility
+    # oracle -- position AND orientation -- to the real containment test.
+    if len(p["objs"]) == 1 and p["cont"] and "1" in objs and not objs["1"].get("unreadable"):
+        import math
+
+        from scenic.core.object_types import Object
+
+        o, g = p["objs"][0], grids["1"]
+        ny = len(g["ys"])
+        cand = [(r, i) for r, row in enumerate(objs["1"]["base"]) for i, b in enumerate(row) if b]
+        rnd = random.Random(seed() * 7 + p["id"])
+        rnd.shuffle(cand)
+        poses = []
+        ws = su.workspace
+        for r, i in cand[:POSE_PROBES if o["poly"] else POSE_PROBES // 3]:
+            x, y, z = g["xs"][i] / 4.0, g["ys"][r % ny] / 4.0, g["zs"][r // ny] / 4.0
+            fits = False
+            for sz in o["sizes"]:
+                for yw in o["yaws"]:
+                    for pt in o["pitches"]:
+                        for rl in o["rolls"]:
+                            c = Object._with(position=Vector(x + o["off"][0] / 4.0, y + o["off"][1] / 4.0, z),
+                                             width=sz[0] / 4.0, length=sz[1] / 4.0, height=sz[2] / 4.0,
+                                             yaw=math.radians(90 * yw), pitch=math.radians(90 * pt), roll=math.radians(90 * rl))
+                            if ws.containsObject(c):
+                                fits = True
+                                break
+                        if fits:
+                            break
+                    if fits:
+                        break
+                if fits:
+                    break
+            poses.append([r, i, fits])
+        out["pose_checks"] = poses
+
     # differential: accepted scenes of the unpruned program lie in the real pruned region
     random.seed(seed() * 1000003 + p["id"])
     numpy.random.seed((seed() * 1000003 + p["id"]) % (2**32))
@@ -405,7 +444,9 @@ def real_program(item):
                 if not inside:
                     lost.append({"obj": k, "base_point": rec[k][:3],
                                  "scene": [[round(o.position.x, 3), round(o.position.y, 3), round(o.position.z, 3),
-                                            round(o.heading, 4)] for o in scene.objects]})
+                                            round(o.heading, 4)] for o in scene.objects],
+                                 "yaw_pitch_roll": [[round(float(o.yaw), 4), round(float(o.pitch), 4), round(float(o.roll), 4)]
+                                                    for o in scene.objects]})
             scenes.append(rec)
     except BaseException as e:  # the alarm may surface re-wrapped (ctypes.ArgumentError)
         if not (_fired[0] or isinstance(e, _Timeout)):
@@ -473,7 +514,7 @@ def lattice_part(ck, tier, pairing):
     slow = []
     dropped_why = []
     tot = dict(probes=0, feasible_probes=0, lost_probes=0, outside_base_probes=0, scenes=0, lost_scenes=0,
-               refused_unsat=0, random_final_region=0, dropped=0, sampling_timeouts=0)
+               refused_unsat=0, random_final_region=0, dropped=0, sampling_timeouts=0, pose_probes=0)
     for p, rr in zip(progs, results):
         fs = fam_stats.setdefault(p["fam"], dict(programs=0, objects=0, nontrivial=0))
         fs["programs"] += 1
@@ -562,6 +603,15 @@ def lattice_part(ck, tier, pairing):
             if glue:
                 raise MachineryError(f"program {p['id']} object {oid}: base region differs between spec and Scenic text at "
                                      f"{len(glue)} probes\n{text}")
+            # pose replay: the real container accepts some lattice pose exactly where the spec says feasible
+            if oid == 1 and rr.get("pose_checks"):
+                bad = [(r, i, fits) for r, i, fits in rr["pose_checks"] if fits != _bit(rows[r][i], 2)]
+                if bad:
+                    raise MachineryError(
+                        f"program {p['id']}: the spec's containment oracle and the real containsObject disagree on lattice poses at "
+                        f"{len(bad)} of {len(rr['pose_checks'])} probes (row, column, real fits): {bad[:5]}\n{text}")
+                tot["pose_probes"] += len(rr["pose_checks"])
+                ck.validated(len(rr["pose_checks"]))
             lostp, extra = [], []
             ny = len(o["ys"])
             for r, row in enumerate(rows):
